@@ -73,15 +73,16 @@ def _job(args):
     rng = random.Random(seed)
     cases, metas = [], []
     while len(cases) < 2 * n:
-        pool = rng.choice((rules.COLLISION_FREE, rules.ADVERSARIAL))
-        nodes = rules.rand_tree(rng, pool, max_nodes=rng.choice([5, 8, 12]))
+        large = rng.random() < 0.1          # now and then beyond hand-written sizes
+        pool = rules.LARGE_POOL if large else rng.choice((rules.COLLISION_FREE, rules.ADVERSARIAL))
+        nodes = rules.rand_tree(rng, pool, max_nodes=rng.choice([25, 40]), max_depth=7) if large else rules.rand_tree(rng, pool, max_nodes=rng.choice([5, 8, 12]))
         if mode == "scan":
             inner = {x for x in nodes if any(m.startswith(x + ".") for m in nodes)}
             srcs = [x for x in nodes if x not in inner]
         else:
             srcs = nodes
         E = set()
-        for _ in range(rng.randint(0, 8)):
+        for _ in range(rng.randint(0, 25 if large else 8)):
             a, b = rng.choice(srcs), rng.choice(nodes)
             if a != b:
                 E.add((a, b))
@@ -94,7 +95,7 @@ def _job(args):
             S = (rng.choice(["named", "sub"]), [rng.choice(cand)])
             O = (rng.choice(["named", "sub"]), [rng.choice(cand)])
         else:
-            fp = rules.pick_filters(rng, nodes, strict=rng.random() < 0.4)
+            fp = rules.pick_filters(rng, nodes, strict=rng.random() < 0.4, kmax=6 if large else 3)
             if fp is None:
                 continue
             S, O = fp
